@@ -240,12 +240,14 @@ impl Report {
     }
     /// record one evaluated case; `sig` identifies its class, `nontrivial` whether it counts.
     pub fn case(&mut self, sig: String, nontrivial: bool, sample: impl FnOnce() -> Value) {
+        HEARTBEAT.fetch_add(1, std::sync::atomic::Ordering::Relaxed);
         self.evaluations += 1;
         if nontrivial && self.signatures.insert(sig) && self.samples.len() < self.max_samples {
             self.samples.push(sample());
         }
     }
     pub fn count(&mut self, key: &str) {
+        HEARTBEAT.fetch_add(1, std::sync::atomic::Ordering::Relaxed);
         *self.dist.entry(key.to_string()).or_insert(0) += 1;
     }
     pub fn fail(&mut self, id: &str, what: &str, detail: Value) {
@@ -472,4 +474,54 @@ impl std::io::Seek for BudgetCursor {
         self.spend()?;
         self.inner.seek(pos)
     }
+}
+
+// ---------------------------------------------------------------------------------------------------------
+// Watchdog: a decoder (or writer) that never returns would stall the whole engine.  Engines announce the case
+// they are about to run with `progress`; if nothing is announced or recorded for `HANG_SECS` seconds the
+// watchdog thread writes a report that contains the hang as a failure (with the announced case as the replay)
+// and ends the process.
+pub static HEARTBEAT: std::sync::atomic::AtomicU64 = std::sync::atomic::AtomicU64::new(0);
+pub static CURRENT_CASE: std::sync::Mutex<String> = std::sync::Mutex::new(String::new());
+#[allow(dead_code)]
+pub const HANG_SECS: u64 = 150;
+
+#[allow(dead_code)]
+pub fn progress(what: &str) {
+    HEARTBEAT.fetch_add(1, std::sync::atomic::Ordering::Relaxed);
+    if let Ok(mut g) = CURRENT_CASE.lock() {
+        g.clear();
+        g.push_str(what);
+    }
+}
+
+#[allow(dead_code)]
+pub fn start_watchdog(property: String, outdir: String) {
+    std::thread::spawn(move || {
+        let mut last = HEARTBEAT.load(std::sync::atomic::Ordering::Relaxed);
+        let mut idle = 0u64;
+        loop {
+            std::thread::sleep(std::time::Duration::from_secs(5));
+            let now = HEARTBEAT.load(std::sync::atomic::Ordering::Relaxed);
+            if now != last {
+                last = now;
+                idle = 0;
+                continue;
+            }
+            idle += 5;
+            if idle >= HANG_SECS {
+                let cur = CURRENT_CASE.lock().map(|g| g.clone()).unwrap_or_default();
+                let rep = json!({
+                    "property": property, "evaluations": now, "distinct_nontrivial": 0,
+                    "failures": [{"id": "engine-hang", "what": format!("no progress for {HANG_SECS} s: the call under test did not return (endless loop / deadlock)"), "detail": {"case_in_progress": cur}}],
+                    "model_requests": 0, "notes": ["written by the watchdog"], "rule": "", "samples": [], "dist": {}
+                });
+                let _ = std::fs::write(format!("{outdir}/{property}.json"), serde_json::to_string_pretty(&rep).unwrap());
+                let _ = std::fs::write(format!("{outdir}/{property}.req"), "");
+                let _ = std::fs::write(format!("{outdir}/{property}.exp"), "");
+                println!("{property} evaluations={now} distinct=0 failures=1 model_requests=0 (watchdog: hang)");
+                std::process::exit(0);
+            }
+        }
+    });
 }
